@@ -15,7 +15,16 @@ POOL_OK = gens.VALID_FILTERS + ["a/b/c eq 1", "x/y/z/w ne null", "a/b/c/d/e eq a
                                 "x in (a, b, c, a, geo.b, b)", "concat(concat(a, b), concat(b, a)) eq 'zz'"]
 POOL_BAD = ["a eq", "a eq 1 )", "(((", "a/b/c/d eq", "foo(1)", "distance(a, b) lt 1", "intersects(a, b)", "geo.contains(a, 'x')", "concat(1)", "substring(a)",
             "a ½", "'abc", "a eq 'x", "x/any(", "a in (1", "f.g(x=1, 2)", "a/b/c/", "not", "1 2", "now(1)", "geo.length()", "contains(a)", "a/b/c/d eq ½"]
-PROBES = POOL_OK[:60] + POOL_BAD
+# every OData built-in (names and arities from the specification, typed in here - NOT read from the library's table, which is what is being probed)
+# called with 0..4 arguments: acceptance of a call may not depend on which parts of the library were imported or used before
+BUILTIN_ARITIES = {"concat": (2, 2), "contains": (2, 2), "endswith": (2, 2), "indexof": (2, 2), "length": (1, 1), "startswith": (2, 2), "substring": (2, 3), "hassubset": (2, 2),
+                   "hassubsequence": (2, 2), "matchesPattern": (2, 2), "tolower": (1, 1), "toupper": (1, 1), "trim": (1, 1), "year": (1, 1), "month": (1, 1), "day": (1, 1),
+                   "hour": (1, 1), "minute": (1, 1), "second": (1, 1), "fractionalseconds": (1, 1), "totalseconds": (1, 1), "date": (1, 1), "time": (1, 1),
+                   "totaloffsetminutes": (1, 1), "mindatetime": (0, 0), "maxdatetime": (0, 0), "now": (0, 0), "ceiling": (1, 1), "floor": (1, 1), "round": (1, 1),
+                   "geo.distance": (2, 2), "geo.intersects": (2, 2), "geo.length": (1, 1)}
+_ARGS = ["a", "' '", "b", "c"]
+ARITY_PROBES = [n + "(" + ", ".join(_ARGS[:k]) + ")" for n in BUILTIN_ARITIES for k in range(0, 5)]
+PROBES = POOL_OK[:60] + POOL_BAD + ARITY_PROBES
 
 def outcome(lx, ps, text):
     return impl.real_parse(text, lx, ps)
@@ -92,12 +101,18 @@ if order == "rewrite-first":
     import odata_query.rewrite, odata_query.roundtrip, odata_query.grammar
 elif order == "sql-first":
     import odata_query.sql, odata_query.typing, odata_query.grammar
+elif order == "sqlalchemy-first":
+    import odata_query.sqlalchemy, odata_query.grammar
+elif order == "django-first":
+    import odata_query.django, odata_query.grammar
+elif order == "everything-first":
+    import odata_query.sql, odata_query.sqlalchemy, odata_query.django, odata_query.rewrite, odata_query.roundtrip, odata_query.typing, odata_query.utils, odata_query.grammar
 else:
     import odata_query.grammar
 sys.path.insert(0, sys.argv[2])
 import impl
 probes = json.loads(sys.stdin.read())
-print(hashlib.sha256("\n".join(impl.real_parse(p) for p in probes).encode()).hexdigest())
+print(json.dumps([impl.real_parse(p) for p in probes]))
 '''
 
 def run(ctx):
@@ -194,13 +209,18 @@ def run(ctx):
         ctx.broken.append(f"AliasRewriter built with used lexer/parser differs from fresh ones: {ar_bad[0]!r}")
     # process-level determinism: digests of a probe set in fresh subprocesses under several hash seeds / import orders
     seeds = ["0", "1", "42", "12345", "random"] + (["7", "99", "2024", "31337", "4294967295"] if ctx.thorough else [])
-    digests = {}
+    digests, per_process = {}, {}
     for sd in seeds:
-        for order in (["grammar-first", "rewrite-first", "sql-first"] if sd in ("0", "1") or ctx.thorough else ["grammar-first"]):
+        for order in (["grammar-first", "rewrite-first", "sql-first", "sqlalchemy-first", "django-first", "everything-first"] if sd in ("0", "1") or ctx.thorough else ["grammar-first"]):
             env = dict(os.environ, PYTHONHASHSEED=sd)
             p = subprocess.run([sys.executable, "-c", DIGEST_PROG, order, common.HERE], input=json.dumps(PROBES).encode(), env=env,
                                stdout=subprocess.PIPE, stderr=subprocess.PIPE, timeout=300)
-            digests[(sd, order)] = p.stdout.decode().strip() or ("ERR " + p.stderr.decode()[-200:])
+            try:
+                outs_p = json.loads(p.stdout.decode().strip().split("\n")[-1])
+                per_process[(sd, order)] = outs_p
+                digests[(sd, order)] = hashlib.sha256("\n".join(outs_p).encode()).hexdigest()
+            except Exception:  # noqa
+                digests[(sd, order)] = "ERR " + p.stderr.decode()[-200:]
     here = hashlib.sha256("\n".join(fresh(p) for p in PROBES).encode()).hexdigest()
     truly_fresh = hashlib.sha256("\n".join(fresh_cache[p] for p in PROBES).encode()).hexdigest()
     if truly_fresh != here:
@@ -229,7 +249,15 @@ def run(ctx):
                                   "why": "a NEW lexer/parser pair gives a different result after other instances parsed other inputs in the same process",
                                   "signature": "C20:process-state:" + pr[:30]})
                     break
-        if len(set(digests.values()) | {here}) != 1:
+        for (sd, order), outs_p in per_process.items():
+            for pr, o in zip(PROBES, outs_p):
+                if o != fresh_cache.get(pr, o):
+                    found.append({"property": "C20", "probe": pr, "PYTHONHASHSEED": sd, "import_order": order, "outcome_there": o[:400], "in_a_process_that_imports_only_the_parser": fresh_cache[pr][:400],
+                                  "why": "the outcome of parsing the probe depends on the hash seed / on which modules of the library were imported first",
+                                  "signature": "C20:process:" + order + ":" + pr[:30],
+                                  "replay": "PYTHONHASHSEED=<seed> python -c 'import <modules in that order>; parse the probe with a fresh ODataLexer / ODataParser'"})
+                    break
+        if len(set(digests.values()) | {here}) != 1 and not any(f.get("import_order") for f in found):
             found.append({"property": "C20", "digests": {f"{k[0]}/{k[1]}": v for k, v in digests.items()}, "in_process": here,
                           "why": "outcomes depend on PYTHONHASHSEED / import order", "signature": "C20:process"})
         ctx.extra["searched"] = "differing histories re-judged against fresh instances; interleavings; rewriter; process digests"
